@@ -1,4 +1,7 @@
 import Abyss.Props.C15
+import Abyss.Props.GenCorollaries
+#print axioms Abyss.C15_generated_readonly
+#print axioms Abyss.C04_generated_iter
 #print axioms Abyss.C15_store_frame
 #print axioms Abyss.C15_files_unchanged
 #print axioms Abyss.C15_delete_absent
